@@ -152,10 +152,12 @@ func c16(e *Env) {
 	r.Rule("every type × canonical values with non-empty lists (1,2,3,17 elements) and populated nested parts: decode side — decode from a harness-owned byte array, then (i) complement every source byte, (ii) Reset() the buffer and write unrelated bytes of the same length, (iii) decode a different message from the same buffer into another receiver; encode side — encode behind a prefix, then mutate the message in place (every number, text, list element, nested part; swap body/extension objects). The same workload is repeated in a -race build (checkptr instrumentation on). distinct_nontrivial = distinct non-zero values whose in-place mutation provably changed their own encoding")
 	r.Explain("Oracle: the decoded message ≡ its deep snapshot after each of (i)-(iii); the bytes already written == their snapshot after the message mutation; zero race-detector / checkptr reports or aborts in the instrumented run.")
 	r.Assume("checkptr only flags invalid unsafe conversions; a zero-copy alias that is 'valid' for checkptr is still caught by oracle (i)")
-	c16Workload(e)
 	if len(e.Args) > 0 && e.Args[0] == "race-child" {
+		e.Workers = 1 // single goroutine: what the instrumented run adds is checkptr, not race hunting
+		c16Workload(e)
 		return
 	}
+	c16Workload(e)
 	// ---- the same workload under the race detector / checkptr
 	bin := os.Getenv("VERIF_BIN_RACE")
 	if bin == "" || e.Only != "" {
